@@ -748,6 +748,29 @@ def run_inputs(ctx, model, files, cases):
                         "impl": "accepted" if accepted else impl, "documented": bool(doc_user)}, limit=8)
 
 
+def run_conf_inputs(ctx, model, files, rng):
+    """check_input_section(get_config_input(user_cfg)): what check_conf does first (fid 6)"""
+    from pandora import check_configuration as cc
+
+    ok = base_input(files, "interval", rng, optional=False)
+    pipeline = {"matching_cost": {"matching_cost_method": "sad"}}
+    users = [{"input": ok}, {"input": ok, "pipeline": pipeline}, {"pipeline": pipeline, "input": ok}, {"pipeline": pipeline},
+             {}, {"input": ok, "extra": 1}, {"Input": ok}, {"input": None}, {"input": {}}, {"input": 3, "pipeline": {}},
+             [], ["input"], ["a", 3], "input", "my input file", "abc", "", 5, None, 2.5, True]
+    res = model.batch([(6, [files.table(u), jsonwire.to_wire(u)]) for u in users])
+    for u, m in zip(users, res):
+        try:
+            out = cc.check_input_section(cc.get_config_input(copy.deepcopy(u)))
+            impl = [0, jsonwire.to_wire(out)]
+        except Exception as exc:  # pylint: disable=broad-except
+            impl = [1, exc_code(exc)]
+        ctx.traces += 1
+        ctx.case(("conf", json.dumps(jsonwire.show(u), sort_keys=True)))
+        ctx.count("conf_input_cases")
+        if impl != m:
+            ctx.mismatch("get_config_input+check_input_section", {"stream": "conf", "user": jsonwire.show(u)}, impl, m)
+
+
 # =============================================================================== through pandora.main
 
 
@@ -851,6 +874,7 @@ def run(ctx):
             for _ in range(4):
                 in_cases += gen_input_cases(files, rng, 0)
         run_inputs(ctx, model, files, in_cases)
+        run_conf_inputs(ctx, model, files, rng)
         run_main_cases(ctx, files)
         ctx.stats["rasters_written"] = len(files.p)
     finally:
